@@ -2,19 +2,42 @@
 # tools/evalseed.sh <PID> <worktree> <patch.diff> [tier]
 # Apply a seeded change in a scratch worktree (never /repo), run the check against it, revert.
 # Prints DETECTED / MISSED.  Evidence of these runs goes to out/seed-evidence, not to evidence/.
+# A patch that no longer applies on main is applied on the commit it was written against (meta.json base_commit); the
+# check is then ALSO run on that clean base, and only violation signatures (clause + site) that the patch ADDS count:
+# an old base may contain defects that were repaired since and that the current checks report on their own.
 PID=$1; WT=$2; PATCH=$3; TIER=${4:-quick}; VH="$(cd "$(dirname "$0")/.." && pwd)"
 cd "$WT" || exit 2
 git checkout -q -- . || exit 2
-# seeds are applied on the commit they were written against (meta.json base_commit), unless they still apply on main
 BASE=$(python3 -c "import json,os,sys; p=os.path.join(os.path.dirname('$PATCH'),'meta.json'); print(json.load(open(p)).get('base_commit','') if os.path.exists(p) else '')" 2>/dev/null)
 git checkout -q --detach main 2>/dev/null
-if ! git apply --check "$PATCH" 2>/dev/null && [ -n "$BASE" ]; then git checkout -q --detach "$BASE"; echo "(applied on base commit $BASE)"; fi
-git apply "$PATCH" || { echo "PATCH-DOES-NOT-APPLY"; exit 2; }
+ONBASE=0
+if ! git apply --check "$PATCH" 2>/dev/null && [ -n "$BASE" ]; then git checkout -q --detach "$BASE"; ONBASE=1; echo "(applied on base commit $BASE)"; fi
+git apply --check "$PATCH" 2>/dev/null || { echo "PATCH-DOES-NOT-APPLY"; exit 2; }
 cd "$VH"
 mkdir -p out/seed-evidence
-DREYE_REPO="$WT" VERIF_EVIDENCE_DIR=$VH/out/seed-evidence VERIF_OUT_DIR=$VH/out/seed-out ./check "$PID" --tier "$TIER" > "out/seed-$PID-$$.log" 2>&1
+run_check() { DREYE_REPO="$WT" VERIF_EVIDENCE_DIR=$VH/out/seed-evidence VERIF_OUT_DIR=$VH/out/seed-out ./check "$PID" --tier "$TIER" > "$1" 2>&1; }
+S0=out/seed-$PID-$$.base.json; rm -f "$S0"
+if [ $ONBASE -eq 1 ]; then
+  rm -f out/seed-out/violations-$PID.json
+  run_check "out/seed-$PID-$$.base.log"
+  [ -f out/seed-out/violations-$PID.json ] && cp out/seed-out/violations-$PID.json "$S0"
+fi
+git -C "$WT" apply "$PATCH" || { echo "PATCH-DOES-NOT-APPLY"; exit 2; }
+rm -f out/seed-out/violations-$PID.json
+run_check "out/seed-$PID-$$.log"
 rc=$?
 git -C "$WT" checkout -q -- .
-if [ $rc -eq 1 ]; then echo "DETECTED rc=1: $(grep -c '^VIOLATION' out/seed-$PID-$$.log) violation lines; first: $(grep '^VIOLATION' out/seed-$PID-$$.log | head -1 | cut -c1-260)";
+if [ $rc -eq 1 ] && [ $ONBASE -eq 1 ]; then
+  new=$(python3 - "$S0" out/seed-out/violations-$PID.json <<'PY'
+import json,sys,os
+s0=json.load(open(sys.argv[1]))["summary"] if os.path.exists(sys.argv[1]) else {}
+s1=json.load(open(sys.argv[2]))["summary"] if os.path.exists(sys.argv[2]) else {}
+print(sum(1 for k,v in s1.items() if v>s0.get(k,0)), len(s0))
+PY
+)
+  n1=${new% *}; n0=${new#* }
+  if [ "$n1" -gt 0 ]; then echo "DETECTED rc=1 on base: $n1 violation signatures added by the patch ($n0 already on the clean base); first: $(grep '^VIOLATION' out/seed-$PID-$$.log | head -1 | cut -c1-200)";
+  else echo "INCONCLUSIVE rc=1 on base: every violation signature is already reported on the clean base ($n0)"; fi
+elif [ $rc -eq 1 ]; then echo "DETECTED rc=1: $(grep -c '^VIOLATION' out/seed-$PID-$$.log) violation lines; first: $(grep '^VIOLATION' out/seed-$PID-$$.log | head -1 | cut -c1-260)";
 elif [ $rc -eq 0 ]; then echo "MISSED rc=0: $(tail -1 out/seed-$PID-$$.log)";
 else echo "MACHINERY rc=$rc: $(tail -3 out/seed-$PID-$$.log | cut -c1-300)"; fi
